@@ -66,13 +66,16 @@ def build_T20(tree):
     if not isinstance(guard_if, ast.If):
         raise Unsupported('carry guard of the frame loop not found')
     body = guard_if.body
-    want = ['full_array=np.concatenate([remainder_pixels,flat_array])', None,
-            'to_encode=full_array[:n_pixels_to_take]', 'remainder_pixels=full_array[n_pixels_to_take:]']
-    if len(body) != 4 or any(w is not None and _norm(s) != w for s, w in zip(body, want)):
+    if len(body) != 4:
         raise Unsupported('carry branch of the frame loop changed shape: ' + ' ; '.join(_norm(s) for s in body))
     take = body[1]
-    if not (isinstance(take, ast.Assign) and _norm(take.targets[0]) == 'n_pixels_to_take'):
-        raise Unsupported('n_pixels_to_take assignment not found')
+    if not (isinstance(take, ast.Assign) and len(take.targets) == 1 and isinstance(take.targets[0], ast.Name)):
+        raise Unsupported('second statement of the carry branch is no longer `<n> = <expression>`')
+    nvar = take.targets[0].id           # the name of the local does not matter
+    want = ['full_array=np.concatenate([remainder_pixels,flat_array])', None,
+            f'to_encode=full_array[:{nvar}]', f'remainder_pixels=full_array[{nvar}:]']
+    if any(w is not None and _norm(s) != w for s, w in zip(body, want)):
+        raise Unsupported('carry branch of the frame loop changed shape: ' + ' ; '.join(_norm(s) for s in body))
     if [_norm(s) for s in guard_if.orelse] != ['to_encode=flat_array']:
         raise Unsupported('per-frame branch of the frame loop is no longer `to_encode = flat_array`')
     # ---- (1) the guard
@@ -85,7 +88,7 @@ def build_T20(tree):
                          doc='frame loop of `Segmentation.__init__`, native branch: the test deciding whether leftover '
                              'pixels are carried over to the next frame (True) or every frame is packed on its own (False)')
     # ---- (2) pixels taken per iteration
-    blk = [ast.parse(ast.unparse(take)).body[0], _ret('n_pixels_to_take')]
+    blk = [ast.parse(ast.unparse(take)).body[0], _ret(nvar)]
     for s in blk:
         ast.fix_missing_locations(s)
     t2 = translate_block(blk, 'segCarryTake', [], {'len(full_array)': ('int', 'fullLen')},
